@@ -86,17 +86,22 @@ class MathParser:
             if buf.cur():
                 start = buf.cur().pos
 
+        # NB: if the equation is replaced as a whole, an error mark for
+        # missing end of maths must not get lost
+        mark = self.error_mark
         if env.remove:
             txt = self.parser.get_text_direct(out).strip()
             if txt and txt[-1] in self.parser.parms.math_punctuation:
-                out = [defs.TextToken(out[-1].pos, txt[-1], pos_fix=True)]
+                out = mark + [defs.TextToken(out[-1].pos, txt[-1],
+                                                        pos_fix=True)]
             else:
-                out = [defs.ActionToken(out[-1].pos)]
+                out = mark + [defs.ActionToken(out[-1].pos)]
         else:
             if self.parser.parms.math_displayed_simple:
                 txt = self.parser.get_text_direct(out).strip()
                 out = [defs.ActionToken(start_simple),
-                        defs.SpaceToken(start_simple, '  ', pos_fix=True),
+                        defs.SpaceToken(start_simple, '  ', pos_fix=True)
+                        ] + mark + [
                         defs.TextToken(start_simple, self.parser.parms.
                                         lang_context.math_repl_display[0],
                                         pos_fix=True)]
@@ -138,12 +143,14 @@ class MathParser:
         parser = self.parser
         parms = parser.parms
         out = []
+        mark = []
         while True:
             tok = buf.skip_space()
             if not tok or type(tok) is defs.ParagraphToken:
                 buf.next()
-                out = (utils.latex_error('missing end of maths', start,
-                                self.parser.latex, self.parser.parms) + out)
+                mark = utils.latex_error('missing end of maths', start,
+                                self.parser.latex, self.parser.parms)
+                out = mark + out
                 break
             elif tok.txt in toks_stop:
                 buf.next()
@@ -190,6 +197,8 @@ class MathParser:
 
         out = [t for t in out
                     if type(t) not in (defs.VoidToken, defs.ActionToken)]
+        # error mark of this section (if any), see expand_display_math()
+        self.error_mark = mark
         return out, tok
 
     #   given a token sequence, find parts of math tokens
